@@ -30,10 +30,10 @@ CHECKS = {
     },
     "C03": {
         "engine": "tlc-trace", "design_ref": "DESIGN.md 3.6, 7 C03",
-        "technique": "Forest.tla: the recorded forest as a counted DAG (Kleene-iterated counts, tree sets, cyclicity) vs len/solutions/ambiguities/enumerations/IndexError/LoopError replies, TLC",
+        "technique": "Forest.tla: the recorded forest as a counted DAG (Kleene-iterated counts, tree sets, cyclicity) vs len/solutions/ambiguities/enumerations/IndexError/LoopError replies; ForestAPI.tla call histories (TLC-enumerated and simulated) replayed on real forests and validated by ForestAPITrace.tla; BigForest.tla exact big-integer counts (limb arithmetic) vs replies of real forests with up to 10^20+ trees (BigForestCheck.tla), TLC",
         "level": "len/solutions/ambiguities, every enumerated tree (lazy, non-lazy, repeated, iterated, first), out-of-range replies and LoopError of every real "
                  "forest in the explored space are compared in TLA+ with the tree set the recorded DAG represents and with the reference count.",
-        "note": _GLR_NOTE + " Tree sets are materialised up to 60 trees; above that saturating counts and residues modulo four 15-bit primes.",
+        "note": _GLR_NOTE + " Tree sets are materialised up to 60 trees; above that saturating counts and residues modulo four 15-bit primes; on the big forests of stage_big the count is exact (limbs base 1000) and each returned tree is checked to be represented by the recorded DAG.",
     },
     "C04": {
         "engine": "tlc-trace", "design_ref": "DESIGN.md 3.4, 7 C04",
@@ -103,7 +103,7 @@ CHECKS = {
     },
     "C11": {
         "engine": "tlc-trace", "design_ref": "DESIGN.md 3.4 (Recover*, RecoveryProgress), 7 C11",
-        "technique": "RecoveryCheck.tla final-state clauses (termination, only SyntaxError, spans ordered/disjoint/in bounds, trees are derivations over input tokens, every character accounted for, sentences untouched) + LRTrace.tla validation of recorded H-lr events against the LR machine over the real table with RecoveryProgress, TLC",
+        "technique": "RecoveryCheck.tla final-state clauses (termination, only SyntaxError, spans ordered/disjoint/in bounds, trees are derivations over input tokens, every character accounted for, sentences untouched) + LRTrace.tla validation of recorded H-lr events against the LR machine over the real table with RecoveryProgress and the custom-strategy contract (the parser continues from exactly the position and lookahead the strategy left; no rescan while a lookahead is pending), TLC",
         "level": "For every explored corrupted input, parser kind and strategy the run terminates, raises nothing but SyntaxError, reports ordered disjoint in-bounds spans, returns trees that are derivations "
                  "over real input tokens, accounts for every non-layout character (LR, default), leaves sentences untouched; every LR run's shift/reduce/error/recover events are steps of the LR automaton "
                  "and every default recovery strictly advances.",
@@ -167,9 +167,9 @@ CHECKS = {
     },
     "C20": {
         "engine": "tlc-trace", "design_ref": "DESIGN.md 3.9 Imports, 7 C20",
-        "technique": "Imports.tla reference (first-visit prefixes, FQNs, alias following, overrides, each file once) + CFG.tla sentencehood over the flattened productions + Actions.tla vs the loaded grammar's productions, acceptance and results (ImportCheck.tla), TLC",
+        "technique": "Imports.tla reference (first-visit prefixes, FQNs, alias following, overrides, each file once) + CFG.tla sentencehood over the flattened productions + Actions.tla vs the loaded grammar's productions, acceptance and results, and the modular parser vs the real parser of the single-file grammar written from the same productions (ImportCheck.tla), TLC",
         "level": "For every generated file set the productions and terminals of the grammar loaded by Grammar.from_file equal the flattened grammar computed in TLA+ (helper names aside), "
-                 "acceptance of every explored token sequence equals sentencehood in the flattened grammar, and every forest tree's result equals the documented meaning.",
+                 "acceptance of every explored token sequence equals sentencehood in the flattened grammar (a disagreement is excused only when the single-file parser built from TLC-proved-equal productions answers the same: the GLR findings D1/D2 belong to C01/C02) and equals the single-file parser's answer, and every forest tree's result equals the documented meaning.",
         "note": "Trusted: TLC, projection of productions/terminals by fqn. Bounded: <= 4 files, 10 graph shapes, inputs <= 8 tokens. Known finding D12: an override combined with more than one import path to the overridden file.",
     },
 }
